@@ -225,6 +225,15 @@ func (m *mutator) collect(v reflect.Value) []reflect.Value {
 
 func (m *mutator) bytes() []byte {
 	v := m.r.next()
+	if v%29 == 7 {
+		// lengths at which the TL1 string header and the TL2 size prefix change their form
+		n := []int{253, 254, 255, 256, 65789, 65790, 65791}[(v>>8)%7]
+		b := make([]byte, n)
+		for i := range b {
+			b[i] = 'a' + byte((uint64(i)+(v>>16))%23)
+		}
+		return b
+	}
 	if v%3 != 0 {
 		return []byte(stringEdges[(v>>8)%uint64(len(stringEdges))])
 	}
